@@ -248,8 +248,192 @@ fn h_pub(op: &str, a: &[&str]) -> Option<String> {
     }
 }
 
+// ------------------------------------------------------------------ .debug_names
+
+type Sl<'a> = EndianSlice<'a, RunTimeEndian>;
+
+fn res_s<T>(r: gimli::Result<T>, f: impl Fn(T) -> String) -> String {
+    match r {
+        Ok(v) => f(v),
+        Err(x) => format!("!{}", rerr(&x)),
+    }
+}
+
+fn value_s(v: &gimli::NameAttributeValue<Sl<'_>>) -> String {
+    match v {
+        gimli::NameAttributeValue::Unsigned(v) => format!("u{v}"),
+        gimli::NameAttributeValue::Offset(v) => format!("o{v}"),
+        gimli::NameAttributeValue::Flag(b) => if *b { "f1".into() } else { "f0".into() },
+    }
+}
+
+fn tu_s(t: gimli::NameTypeUnit<usize>) -> String {
+    match t {
+        gimli::NameTypeUnit::Local(o) => format!("L{}", o.0),
+        gimli::NameTypeUnit::Foreign(s) => format!("F{}", s.0),
+    }
+}
+
+fn entry_head_s(en: &gimli::NameEntry<Sl<'_>>) -> String {
+    format!("{}.{}.{}", en.offset.0, en.abbrev_code, en.tag.0)
+}
+
+fn entry_s<'a>(ix: &gimli::NameIndex<Sl<'a>>, en: &gimli::NameEntry<Sl<'a>>) -> String {
+    let attrs: Vec<String> = en.attrs.iter().map(|a| format!("{}.{}.{}", a.name().0, a.form().0, value_s(a.value()))).collect();
+    let par = en.parent();
+    let par_s = match &par {
+        Ok(None) => "~".to_string(),
+        Ok(Some(None)) => "N".to_string(),
+        Ok(Some(Some(o))) => o.0.to_string(),
+        Err(x) => format!("!{}", rerr(x)),
+    };
+    let chain = match par {
+        Ok(Some(Some(off))) => format!(">{}", res_s(ix.name_entry(off), |p| entry_head_s(&p))),
+        _ => String::new(),
+    };
+    format!(
+        "{}({})cu={}/tu={}/die={}/par={}{}/th={}",
+        entry_head_s(en),
+        join("+", &attrs),
+        res_s(en.compile_unit(ix), |v| v.map(|o| o.0.to_string()).unwrap_or("~".into())),
+        res_s(en.type_unit(ix), |v| v.map(tu_s).unwrap_or("~".into())),
+        res_s(en.die_offset(), |v| v.map(|o| o.0.to_string()).unwrap_or("~".into())),
+        par_s,
+        chain,
+        res_s(en.type_hash(), |v| v.map(|o| o.to_string()).unwrap_or("~".into())),
+    )
+}
+
+/// run an iterator's `next` to the first `Ok(None)` / error, at most `cap` calls
+fn drain<T>(cap: usize, mut next: impl FnMut() -> gimli::Result<Option<T>>, f: impl Fn(T) -> String, stop_on_err: bool) -> String {
+    let mut out = Vec::new();
+    for _ in 0..cap {
+        match next() {
+            Ok(None) => break,
+            Ok(Some(v)) => out.push(f(v)),
+            Err(x) => {
+                out.push(format!("!{}", rerr(&x)));
+                if stop_on_err {
+                    break;
+                }
+            }
+        }
+    }
+    join(",", &out)
+}
+
+fn index_s<'a>(ix: &gimli::NameIndex<Sl<'a>>, dstr: &gimli::DebugStr<Sl<'a>>, hashes: &[u64], oob: bool) -> String {
+    let extra = if oob { 1 } else { 0 };
+    let upto = |n: u32| 0..(n as u64 + extra);
+    let cu: Vec<String> = upto(ix.compile_unit_count()).map(|i| res_s(ix.compile_unit(i as u32), |o| o.0.to_string())).collect();
+    let ltu: Vec<String> = upto(ix.local_type_unit_count()).map(|i| res_s(ix.local_type_unit(i as u32), |o| o.0.to_string())).collect();
+    let ftu: Vec<String> = upto(ix.foreign_type_unit_count()).map(|i| res_s(ix.foreign_type_unit(i as u32), |o| o.0.to_string())).collect();
+    let ntu = ix.local_type_unit_count() as u64 + ix.foreign_type_unit_count() as u64;
+    let tu: Vec<String> = (0..ntu + extra).map(|i| res_s(ix.type_unit(i as u32), tu_s)).collect();
+    let ab: Vec<String> = ix
+        .abbreviations()
+        .abbreviations()
+        .iter()
+        .map(|a| {
+            let at: Vec<String> = a.attributes().iter().map(|x| format!("{}.{}", x.name().0, x.form().0)).collect();
+            format!("{}:{}:{}", a.code(), a.tag().0, join("+", &at))
+        })
+        .collect();
+    let cap = ix.name_count() as usize + 2;
+    let bk: Vec<String> = upto(ix.bucket_count())
+        .map(|b| {
+            res_s(ix.find_by_bucket(b as u32), |it| match it {
+                None => "~".to_string(),
+                Some(mut it) => drain(cap, || it.next(), |(i, h)| format!("{}.{}", i.0, h), true),
+            })
+        })
+        .collect();
+    let nm: Vec<String> = upto(ix.name_count())
+        .map(|i| {
+            let idx = gimli::NameTableIndex(i as u32);
+            let so = ix.name_string_offset(idx);
+            let st = if so.is_ok() { res_s(ix.name_string(idx, dstr), |r| hex(r.slice())) } else { "!".to_string() };
+            let ents = res_s(ix.name_entries(idx), |mut it| drain(usize::MAX, || it.next(), |en| entry_s(ix, &en), true));
+            format!("{}:{}:E[{}]", res_s(so, |o| o.0.to_string()), st, ents)
+        })
+        .collect();
+    let hq: Vec<String> = hashes
+        .iter()
+        .map(|h| format!("{}>{}", h, res_s(ix.find_by_hash(*h as u32), |mut it| drain(cap, || it.next(), |i| i.0.to_string(), true))))
+        .collect();
+    format!(
+        "CU={}|LTU={}|FTU={}|TU={}|AB={}|BK={}|NM={}|HQ={}",
+        join(",", &cu),
+        join(",", &ltu),
+        join(",", &ftu),
+        join(",", &tu),
+        join(",", &ab),
+        join(";", &bk),
+        join(";", &nm),
+        join(";", &hq)
+    )
+}
+
+fn h_names(op: &str, a: &[&str]) -> Option<String> {
+    match (op, a) {
+        ("nm" | "nm-oob", [e, h, st, hashes, exp]) => {
+            let e = endian(e)?;
+            let bs = unhex(h)?;
+            let st = unhex(st)?;
+            let hashes = nat_list(hashes)?;
+            let sec = gimli::DebugNames::new(&bs, e);
+            let dstr = gimli::DebugStr::new(&st, e);
+            let mut it = sec.headers();
+            let mut out = Vec::new();
+            for _ in 0..bs.len() + 2 {
+                match it.next() {
+                    Ok(None) => break,
+                    Err(x) => out.push(format!("!{}", rerr(&x))),
+                    Ok(Some(hd)) => {
+                        let aug = match hd.augmentation_string() {
+                            Some(a) => hex(a.slice()),
+                            None => "~".into(),
+                        };
+                        let head = format!(
+                            "I{}:{}:{}:{}:{}:{}:{}:{}:{}:{}:{}",
+                            hd.offset().0,
+                            fmt_s(hd.format()),
+                            hd.length(),
+                            hd.version(),
+                            hd.compile_unit_count(),
+                            hd.local_type_unit_count(),
+                            hd.foreign_type_unit_count(),
+                            hd.bucket_count(),
+                            hd.name_count(),
+                            hd.abbrev_table_size(),
+                            aug
+                        );
+                        out.push(format!("{}|{}", head, res_s(hd.index(), |ix| index_s(&ix, &dstr, &hashes, op == "nm-oob"))));
+                    }
+                }
+            }
+            let s = join("#", &out);
+            let bad = if *exp != "-" && *exp != s { Some(format!("names-differ scan={exp}")) } else { None };
+            Some(with_oracle(format!("ok {s}"), bad))
+        }
+        ("djb-ascii", [h]) => {
+            let bs = unhex(h)?;
+            let s = std::str::from_utf8(&bs).ok()?;
+            let got = gimli::case_folding_djb_hash(s);
+            // DWARF 5 §7.33 DJB hash over the lower-cased bytes
+            let mut want: u32 = 5381;
+            for b in &bs {
+                want = want.wrapping_mul(33).wrapping_add(b.to_ascii_lowercase() as u32);
+            }
+            let bad = if bs.is_ascii() && want != got { Some(format!("djb-differs want={want}")) } else { None };
+            Some(with_oracle(format!("ok {got}"), bad))
+        }
+        _ => None,
+    }
+}
+
 pub fn handle(op: &str, a: &[&str]) -> Option<String> {
-    h_index(op, a).or_else(|| h_aranges(op, a)).or_else(|| h_pub(op, a))
+    h_index(op, a).or_else(|| h_aranges(op, a)).or_else(|| h_pub(op, a)).or_else(|| h_names(op, a))
 }
 
 // =================================================================== generators
@@ -1016,10 +1200,599 @@ fn gen_pub(ctx: &Ctx, emit: &mut dyn FnMut(String)) {
     }
 }
 
+// ---------- .debug_names
+
+fn uleb(mut v: u64, out: &mut Vec<u8>) {
+    loop {
+        let b = (v & 0x7f) as u8;
+        v >>= 7;
+        if v != 0 {
+            out.push(b | 0x80);
+        } else {
+            out.push(b);
+            break;
+        }
+    }
+}
+
+#[derive(Clone)]
+struct NAbbrev {
+    code: u64,
+    tag: u16,
+    attrs: Vec<(u16, u16)>,
+}
+#[derive(Clone)]
+struct NEntry {
+    ab: usize,
+    /// one value per attribute (ignored for `DW_IDX_parent`/ref4, which takes `parent`)
+    vals: Vec<u64>,
+    /// (name index, entry index) of the parent entry
+    parent: (usize, usize),
+}
+#[derive(Clone)]
+struct NName {
+    s: Vec<u8>,
+    hash: u32,
+    entries: Vec<NEntry>,
+    terminated: bool,
+}
+#[derive(Clone)]
+struct AbsNames {
+    f64_: bool,
+    aug: Vec<u8>,
+    cus: Vec<u64>,
+    ltus: Vec<u64>,
+    ftus: Vec<u64>,
+    bucket_count: u32,
+    names: Vec<NName>,
+    abbrevs: Vec<NAbbrev>,
+    abbrev_terminator: bool,
+}
+
+fn form_write(w: &mut W, form: u16, v: u64) {
+    match form {
+        0x0c | 0x0b | 0x11 => w.u8(v as u8),
+        0x19 => {}
+        0x05 | 0x12 => w.u16(v as u16),
+        0x06 | 0x13 => w.u32(v as u32),
+        0x07 | 0x14 => w.u64(v),
+        0x0f | 0x15 => uleb(v, &mut w.b),
+        _ => {}
+    }
+}
+fn form_mask(form: u16) -> u64 {
+    match form {
+        0x0c | 0x0b | 0x11 => 0xff,
+        0x19 => 0,
+        0x05 | 0x12 => 0xffff,
+        0x06 | 0x13 => 0xffff_ffff,
+        _ => u64::MAX,
+    }
+}
+fn form_value_s(form: u16, v: u64) -> String {
+    match form {
+        0x0c => if v != 0 { "f1".into() } else { "f0".into() },
+        0x19 => "f1".into(),
+        0x0b | 0x05 | 0x06 | 0x07 | 0x0f => format!("u{v}"),
+        _ => format!("o{v}"),
+    }
+}
+
+/// serialise one name index; returns (bytes, expected dump of this index given its section offset)
+fn ser_names(a: &AbsNames, big: bool, sec_off: usize, str_off: &[u64], hashes: &[u64]) -> (Vec<u8>, String) {
+    let wsz = if a.f64_ { 8 } else { 4 };
+    // abbreviation table
+    let mut ab = Vec::new();
+    for x in &a.abbrevs {
+        uleb(x.code, &mut ab);
+        uleb(x.tag as u64, &mut ab);
+        for (n, f) in &x.attrs {
+            uleb(*n as u64, &mut ab);
+            uleb(*f as u64, &mut ab);
+        }
+        ab.push(0);
+        ab.push(0);
+    }
+    if a.abbrev_terminator {
+        ab.push(0);
+    }
+    // entry pool, parents patched in a second pass
+    let mut pool = W::new(big);
+    let mut eoff: Vec<Vec<usize>> = Vec::new();
+    let mut series: Vec<usize> = Vec::new();
+    let mut patches: Vec<(usize, (usize, usize))> = Vec::new();
+    for nm in &a.names {
+        series.push(pool.b.len());
+        let mut offs = Vec::new();
+        for en in &nm.entries {
+            offs.push(pool.b.len());
+            let x = &a.abbrevs[en.ab];
+            uleb(x.code, &mut pool.b);
+            for (i, (n, f)) in x.attrs.iter().enumerate() {
+                if *n == 4 && *f == 0x13 {
+                    patches.push((pool.b.len(), en.parent));
+                    pool.u32(0);
+                } else {
+                    form_write(&mut pool, *f, en.vals[i]);
+                }
+            }
+        }
+        if nm.terminated {
+            pool.u8(0);
+        }
+        eoff.push(offs);
+    }
+    for (at, (pn, pe)) in &patches {
+        let mut w = W::new(big);
+        w.u32(eoff[*pn][*pe] as u32);
+        pool.b[*at..*at + 4].copy_from_slice(&w.b);
+    }
+    // body
+    let mut w = W::new(big);
+    w.u16(5);
+    w.u16(0);
+    w.u32(a.cus.len() as u32);
+    w.u32(a.ltus.len() as u32);
+    w.u32(a.ftus.len() as u32);
+    w.u32(a.bucket_count);
+    w.u32(a.names.len() as u32);
+    w.u32(ab.len() as u32);
+    w.u32(a.aug.len() as u32);
+    w.bytes(&a.aug);
+    while (w.b.len() % 4) != 0 {
+        w.u8(0);
+    }
+    for v in &a.cus {
+        w.word(*v, a.f64_);
+    }
+    for v in &a.ltus {
+        w.word(*v, a.f64_);
+    }
+    for v in &a.ftus {
+        w.u64(*v);
+    }
+    let mut buckets: Vec<Vec<usize>> = vec![Vec::new(); a.bucket_count as usize];
+    if a.bucket_count > 0 {
+        for (i, nm) in a.names.iter().enumerate() {
+            buckets[(nm.hash % a.bucket_count) as usize].push(i);
+        }
+        for b in &buckets {
+            w.u32(b.first().map(|i| *i as u32 + 1).unwrap_or(0));
+        }
+        for nm in &a.names {
+            w.u32(nm.hash);
+        }
+    }
+    for i in 0..a.names.len() {
+        w.word(str_off[i], a.f64_);
+    }
+    for i in 0..a.names.len() {
+        w.word(series[i] as u64, a.f64_);
+    }
+    w.bytes(&ab);
+    w.bytes(&pool.b);
+    let mut out = W::new(big);
+    out.initial_length(w.b.len() as u64, a.f64_);
+    out.bytes(&w.b);
+    let _ = wsz;
+
+    // ---- the expected dump: a linear scan of the abstract index
+    let nums = |v: &[u64]| join(",", &v.iter().map(|x| x.to_string()).collect::<Vec<_>>());
+    let mut tu: Vec<String> = a.ltus.iter().map(|o| format!("L{o}")).collect();
+    tu.extend(a.ftus.iter().map(|o| format!("F{o}")));
+    let abs_: Vec<String> = a
+        .abbrevs
+        .iter()
+        .map(|x| format!("{}:{}:{}", x.code, x.tag, join("+", &x.attrs.iter().map(|(n, f)| format!("{n}.{f}")).collect::<Vec<_>>())))
+        .collect();
+    let bk: Vec<String> = buckets
+        .iter()
+        .map(|b| if b.is_empty() { "~".to_string() } else { join(",", &b.iter().map(|i| format!("{}.{}", i, a.names[*i].hash)).collect::<Vec<_>>()) })
+        .collect();
+    let head = |pn: usize, pe: usize| {
+        let x = &a.abbrevs[a.names[pn].entries[pe].ab];
+        format!("{}.{}.{}", eoff[pn][pe], x.code, x.tag)
+    };
+    let nm: Vec<String> = a
+        .names
+        .iter()
+        .enumerate()
+        .map(|(ni, nmx)| {
+            let ents: Vec<String> = nmx
+                .entries
+                .iter()
+                .enumerate()
+                .map(|(ei, en)| {
+                    let x = &a.abbrevs[en.ab];
+                    let mut attrs = Vec::new();
+                    let (mut cu, mut tus, mut die, mut par, mut th) = ("~".to_string(), "~".to_string(), "~".to_string(), "~".to_string(), "~".to_string());
+                    for (i, (n, f)) in x.attrs.iter().enumerate() {
+                        let v = if *n == 4 && *f == 0x13 { eoff[en.parent.0][en.parent.1] as u64 } else { en.vals[i] };
+                        attrs.push(format!("{}.{}.{}", n, f, form_value_s(*f, v)));
+                        match *n {
+                            1 => cu = a.cus[v as usize].to_string(),
+                            2 => tus = tu[v as usize].clone(),
+                            3 => die = v.to_string(),
+                            4 => par = if *f == 0x13 { format!("{}>{}", v, head(en.parent.0, en.parent.1)) } else { "N".into() },
+                            5 => th = v.to_string(),
+                            _ => {}
+                        }
+                    }
+                    format!("{}({})cu={}/tu={}/die={}/par={}/th={}", head(ni, ei), join("+", &attrs), cu, tus, die, par, th)
+                })
+                .collect();
+            format!("{}:{}:E[{}]", str_off[ni], hex(&nmx.s), join(",", &ents))
+        })
+        .collect();
+    let hq: Vec<String> = hashes
+        .iter()
+        .map(|h| {
+            let v: Vec<String> = a.names.iter().enumerate().filter(|(_, n)| n.hash as u64 == *h).map(|(i, _)| i.to_string()).collect();
+            format!("{}>{}", h, join(",", &v))
+        })
+        .collect();
+    let exp = format!(
+        "I{}:{}:{}:5:{}:{}:{}:{}:{}:{}:{}|CU={}|LTU={}|FTU={}|TU={}|AB={}|BK={}|NM={}|HQ={}",
+        sec_off,
+        if a.f64_ { "64" } else { "32" },
+        w.b.len(),
+        a.cus.len(),
+        a.ltus.len(),
+        a.ftus.len(),
+        a.bucket_count,
+        a.names.len(),
+        ab.len(),
+        if a.aug.is_empty() { "~".to_string() } else { hex(&a.aug) },
+        nums(&a.cus),
+        nums(&a.ltus),
+        nums(&a.ftus),
+        join(",", &tu),
+        join(",", &abs_),
+        join(";", &bk),
+        join(";", &nm),
+        join(";", &hq)
+    );
+    (out.b, exp)
+}
+
+fn gen_abs_names(rng: &mut Rng, bucket_mode: u64, nnames: usize) -> AbsNames {
+    let f64_ = rng.chance(1, 3);
+    let wmask = if f64_ { u64::MAX } else { 0xffff_ffff };
+    let cus: Vec<u64> = (0..rng.range(1, 3)).map(|_| rng.boundary_u64() & wmask).collect();
+    let ltus: Vec<u64> = (0..rng.range(0, 2)).map(|_| rng.next() & wmask).collect();
+    let mut ftus: Vec<u64> = (0..rng.range(0, 2)).map(|_| rng.next()).collect();
+    if ltus.is_empty() && ftus.is_empty() {
+        ftus.push(rng.next());
+    }
+    let ntu = (ltus.len() + ftus.len()) as u64;
+    // abbreviations
+    let nab = rng.range(1, 4) as usize;
+    let mut abbrevs: Vec<NAbbrev> = Vec::new();
+    for i in 0..nab {
+        let code = if rng.chance(1, 5) { 0x80 + i as u64 * 0x4000 + rng.below(100) } else { i as u64 + 1 };
+        let tag = *rng.pick(&[0x2eu16, 0x34, 0x13, 0x24, 0x39, 0x4109, 0xffff, 1]);
+        let mut attrs = Vec::new();
+        if rng.chance(2, 3) {
+            attrs.push((1u16, *rng.pick(&[0x0bu16, 0x05, 0x06, 0x0f])));
+        }
+        if rng.chance(1, 2) {
+            attrs.push((2, *rng.pick(&[0x0bu16, 0x05, 0x06, 0x0f])));
+        }
+        if rng.chance(4, 5) {
+            attrs.push((3, *rng.pick(&[0x11u16, 0x12, 0x13, 0x14, 0x15])));
+        }
+        if rng.chance(2, 3) {
+            attrs.push((4, *rng.pick(&[0x13u16, 0x19])));
+        }
+        if rng.chance(1, 3) {
+            attrs.push((5, 0x07));
+        }
+        if rng.chance(1, 4) {
+            attrs.push((0x2000, *rng.pick(&[0x0cu16, 0x05, 0x0f])));
+        }
+        if rng.chance(1, 4) {
+            let n = attrs.len();
+            if n > 1 {
+                let j = rng.below(n as u64) as usize;
+                attrs.swap(0, j);
+            }
+        }
+        abbrevs.push(NAbbrev { code, tag, attrs });
+    }
+    let bucket_count = match bucket_mode {
+        0 => 0,
+        1 => 1,
+        2 => nnames.max(1) as u32,
+        3 => (nnames as u32 / 2).max(2),
+        _ => rng.range(2, 9) as u32,
+    };
+    // names with colliding hashes: a small pool of hash values, some sharing a bucket
+    let pool: Vec<u32> = (0..(nnames / 2).max(1)).map(|_| if rng.chance(1, 4) { rng.boundary_u64() as u32 } else { rng.next() as u32 }).collect();
+    let mut names: Vec<NName> = (0..nnames)
+        .map(|i| {
+            let hash = match rng.below(4) {
+                0 => *rng.pick(&pool),
+                1 if bucket_count > 0 => rng.pick(&pool).wrapping_add(bucket_count.wrapping_mul(rng.below(5) as u32)),
+                _ => rng.next() as u32,
+            };
+            let s: Vec<u8> = format!("n{}_{}", i, rng.below(1000)).into_bytes();
+            let ne = rng.range(0, 3) as usize;
+            let entries = (0..ne)
+                .map(|_| {
+                    let ab = rng.below(abbrevs.len() as u64) as usize;
+                    let vals = abbrevs[ab]
+                        .attrs
+                        .iter()
+                        .map(|(n, f)| match *n {
+                            1 => rng.below(cus.len() as u64),
+                            2 => rng.below(ntu),
+                            _ => (if rng.chance(1, 3) { rng.boundary_u64() } else { rng.next() }) & form_mask(*f),
+                        })
+                        .collect();
+                    NEntry { ab, vals, parent: (0, 0) }
+                })
+                .collect();
+            NName { s, hash, entries, terminated: true }
+        })
+        .collect();
+    if bucket_count > 0 {
+        names.sort_by_key(|n| n.hash % bucket_count);
+    }
+    // parents: any entry of any name
+    let all: Vec<(usize, usize)> = names.iter().enumerate().flat_map(|(i, n)| (0..n.entries.len()).map(move |j| (i, j))).collect();
+    if !all.is_empty() {
+        for n in names.iter_mut() {
+            for en in n.entries.iter_mut() {
+                en.parent = *rng.pick(&all);
+            }
+        }
+    }
+    if let Some(last) = names.last_mut() {
+        if rng.chance(1, 4) {
+            last.terminated = false;
+        }
+    }
+    AbsNames { f64_, aug: rng.bytes_below(10), cus, ltus, ftus, bucket_count, names, abbrevs, abbrev_terminator: rng.chance(3, 4) }
+}
+
+fn emit_names(rng: &mut Rng, big: bool, parts: &[AbsNames], emit: &mut dyn FnMut(String), with_exp: bool, op: &str) -> (Vec<u8>, Vec<u8>) {
+    // one `.debug_str` for all indexes
+    let mut dstr: Vec<u8> = vec![b'x', 0];
+    let mut sec = Vec::new();
+    let mut exps = Vec::new();
+    let mut hashes: Vec<u64> = Vec::new();
+    let has_no_table = parts.iter().any(|a| a.bucket_count == 0);
+    if !has_no_table || !with_exp {
+        for a in parts {
+            for n in &a.names {
+                if !hashes.contains(&(n.hash as u64)) {
+                    hashes.push(n.hash as u64);
+                }
+                // absent hashes: same bucket, neighbouring bucket
+                let h2 = n.hash.wrapping_add(a.bucket_count.max(1));
+                for h in [h2 as u64, n.hash.wrapping_add(1) as u64] {
+                    if rng.chance(1, 3) && !hashes.contains(&h) {
+                        hashes.push(h);
+                    }
+                }
+            }
+        }
+        hashes.push(0);
+        hashes.push(u32::MAX as u64);
+        hashes.dedup();
+        let mut seen = std::collections::HashSet::new();
+        hashes.retain(|h| seen.insert(*h));
+    }
+    for a in parts {
+        let mut so = Vec::new();
+        for n in &a.names {
+            so.push(dstr.len() as u64);
+            dstr.extend_from_slice(&n.s);
+            dstr.push(0);
+        }
+        let (bs, exp) = ser_names(a, big, sec.len(), &so, &hashes);
+        sec.extend(bs);
+        exps.push(exp);
+    }
+    let hs = join(",", &hashes.iter().map(|x| x.to_string()).collect::<Vec<_>>());
+    emit(format!("{} {} {} {} {} {}", op, es(big), hex(&sec), hex(&dstr), hs, if with_exp { join("#", &exps) } else { "-".into() }));
+    (sec, dstr)
+}
+
+fn gen_names(ctx: &Ctx, emit: &mut dyn FnMut(String)) {
+    let mut rng = ctx.rng(1704);
+    let reps = ctx.n(12, 150);
+    let mut keep: Vec<(bool, Vec<u8>, Vec<u8>)> = Vec::new();
+    for bucket_mode in 0..5u64 {
+        for nnames in [0usize, 1, 2, 3, 5, 8, 13] {
+            for rep in 0..reps {
+                if nnames > 5 && rep >= reps / 2 {
+                    break;
+                }
+                let big = rng.chance(1, 2);
+                let nparts = if rng.chance(1, 5) { 2 } else { 1 };
+                let parts: Vec<AbsNames> = (0..nparts).map(|_| gen_abs_names(&mut rng, bucket_mode, nnames)).collect();
+                let (sec, dstr) = emit_names(&mut rng, big, &parts, emit, true, "nm");
+                if bucket_mode == 0 || rep == 0 {
+                    // hash queries without a hash table; out-of-range indexes: correspondence only
+                    emit_names(&mut rng, big, &parts, emit, false, "nm-oob");
+                }
+                if rep < 2 && nnames <= 5 && nnames > 0 {
+                    keep.push((big, sec, dstr));
+                }
+            }
+        }
+    }
+    // malformed: truncation at every byte (small tables), single byte mutations, header field
+    // sweeps; tables whose names are not grouped by bucket; buckets pointing past the names
+    let mut k = 0;
+    for (big, sec, dstr) in &keep {
+        k += 1;
+        let step = if ctx.tier == Tier::Thorough { 1 } else { 1 + sec.len() / 24 };
+        for cut in (0..sec.len()).step_by(step) {
+            emit(format!("nm {} {} {} 0,1,5381 -", es(*big), hex(&sec[..cut]), hex(dstr)));
+        }
+        let nmut = ctx.n(24, 400);
+        for _ in 0..nmut {
+            let mut b = sec.clone();
+            for _ in 0..rng.range(1, 2) {
+                let i = rng.below(b.len() as u64) as usize;
+                b[i] = match rng.below(5) {
+                    0 => 0,
+                    1 => 0xff,
+                    2 => b[i].wrapping_add(1),
+                    3 => b[i].wrapping_sub(1),
+                    _ => rng.next() as u8,
+                };
+            }
+            let hs = format!("{},{},0", rng.next() as u32, rng.below(16));
+            emit(format!("{} {} {} {} {} -", if k % 2 == 0 { "nm" } else { "nm-oob" }, es(*big), hex(&b), hex(dstr), hs));
+        }
+        // `.debug_str` too short / without NUL
+        emit(format!("nm {} {} {} 0 -", es(*big), hex(sec), hex(&dstr[..dstr.len() / 2])));
+        emit(format!("nm {} {} - 0 -", es(*big), hex(sec)));
+    }
+    // version / reserved length / augmentation size sweeps on a tiny index
+    for big in [false, true] {
+        for f64_ in [false, true] {
+            let a = AbsNames {
+                f64_,
+                aug: vec![],
+                cus: vec![0x10],
+                ltus: vec![],
+                ftus: vec![7],
+                bucket_count: 2,
+                names: vec![NName { s: b"a".to_vec(), hash: 4, entries: vec![NEntry { ab: 0, vals: vec![0, 9], parent: (0, 0) }], terminated: true }],
+                abbrevs: vec![NAbbrev { code: 1, tag: 0x2e, attrs: vec![(1, 0x0b), (3, 0x13)] }],
+                abbrev_terminator: true,
+            };
+            for auglen in 0..=9usize {
+                let mut a2 = a.clone();
+                a2.aug = (0..auglen as u8).map(|x| x + 0x41).collect();
+                emit_names(&mut rng, big, &[a2], emit, true, "nm");
+            }
+            let (bs, _) = ser_names(&a, big, 0, &[2], &[]);
+            let hl = if f64_ { 12 } else { 4 };
+            for v in [0u16, 1, 2, 3, 4, 6, 0x0500, 0xffff] {
+                let mut b = bs.clone();
+                let vb = if big { v.to_be_bytes() } else { v.to_le_bytes() };
+                b[hl] = vb[0];
+                b[hl + 1] = vb[1];
+                emit(format!("nm {} {} 780061 4 -", es(big), hex(&b)));
+            }
+            // every header count field set to boundary values
+            for field in 0..7usize {
+                for v in [0u32, 1, 2, 3, 0x7fff_ffff, 0xffff_ffff, 0x4000_0000] {
+                    let mut b = bs.clone();
+                    let at = hl + 4 + 4 * field;
+                    let vb = if big { v.to_be_bytes() } else { v.to_le_bytes() };
+                    b[at..at + 4].copy_from_slice(&vb);
+                    emit(format!("nm-oob {} {} 780061 4,5 -", es(big), hex(&b)));
+                }
+            }
+        }
+    }
+    // abbreviation table edge cases (tag 0, name 0 / form 0, duplicate codes, unknown forms,
+    // unknown code in the pool, code 0 first)
+    let abbrev_cases: Vec<(Vec<NAbbrev>, &str)> = vec![
+        (vec![NAbbrev { code: 1, tag: 0, attrs: vec![] }], "tag0"),
+        (vec![NAbbrev { code: 1, tag: 5, attrs: vec![(0, 0x0b)] }], "name0"),
+        (vec![NAbbrev { code: 1, tag: 5, attrs: vec![(3, 0)] }], "form0"),
+        (vec![NAbbrev { code: 1, tag: 5, attrs: vec![(3, 0x13)] }, NAbbrev { code: 1, tag: 6, attrs: vec![(3, 0x11)] }], "dup"),
+        (vec![NAbbrev { code: 1, tag: 5, attrs: vec![(3, 0x08)] }], "badform"),
+        (vec![NAbbrev { code: 1, tag: 5, attrs: vec![(3, 0x1f01)] }], "bigform"),
+        (vec![NAbbrev { code: 2, tag: 5, attrs: vec![(3, 0x13)] }], "unknowncode"),
+        (vec![NAbbrev { code: 1, tag: 5, attrs: vec![(1, 0x07), (2, 0x07), (3, 0x0b), (4, 0x0c), (5, 0x11)] }], "wrongforms"),
+        (vec![NAbbrev { code: 1, tag: 5, attrs: vec![(3, 0x13), (3, 0x11), (4, 0x19), (4, 0x13)] }], "dupattr"),
+    ];
+    for (abs_, what) in abbrev_cases {
+        for big in [false, true] {
+            let ab_idx = if what == "unknowncode" { 0 } else { 0 };
+            let nvals = abs_[0].attrs.len();
+            let mut a = AbsNames {
+                f64_: false,
+                aug: vec![],
+                cus: vec![0x10, 0x20],
+                ltus: vec![0x30],
+                ftus: vec![7],
+                bucket_count: 1,
+                names: vec![NName { s: b"a".to_vec(), hash: 4, entries: vec![NEntry { ab: ab_idx, vals: (0..nvals as u64).map(|i| if what == "wrongforms" { [0, 1, 2, 1, 3][i as usize] } else { 1 + i }).collect(), parent: (0, 0) }], terminated: true }],
+                abbrevs: abs_.clone(),
+                abbrev_terminator: true,
+            };
+            if what == "unknowncode" {
+                // the pool uses code 2's encoding but the table only knows another code
+                a.abbrevs[0].code = 3;
+                let (mut bs, _) = ser_names(&a, big, 0, &[2], &[]);
+                // patch the code in the table back to 2 -> pool entry (code 3) is unknown
+                if let Some(p) = bs.iter().rposition(|b| *b == 3) {
+                    let _ = p;
+                }
+                a.abbrevs[0].code = 2;
+                let (bs2, _) = ser_names(&a, big, 0, &[2], &[]);
+                // table from bs2, pool from bs: differ in exactly two bytes; take table byte only
+                let d: Vec<usize> = (0..bs.len()).filter(|i| bs[*i] != bs2[*i]).collect();
+                if d.len() == 2 {
+                    bs[d[0]] = bs2[d[0]];
+                }
+                emit(format!("nm {} {} 780061 4 -", es(big), hex(&bs)));
+            } else {
+                let (bs, _) = ser_names(&a, big, 0, &[2], &[]);
+                emit(format!("nm {} {} 780061 4 -", es(big), hex(&bs)));
+            }
+        }
+    }
+    // ungrouped names / buckets past the end: build a valid table, then scramble hashes/buckets
+    let n = ctx.n(150, 3000);
+    for _ in 0..n {
+        let big = rng.chance(1, 2);
+        let nn = rng.range(1, 6) as usize;
+        let mut a = gen_abs_names(&mut rng, 4, nn);
+        let mode = rng.below(3);
+        if mode == 0 {
+            // hashes no longer match the bucket grouping
+            for nm in a.names.iter_mut() {
+                if rng.chance(1, 2) {
+                    nm.hash = rng.next() as u32;
+                }
+            }
+            let bc = a.bucket_count;
+            // keep the *order*; `ser_names` recomputes the bucket heads from the scrambled hashes
+            let _ = bc;
+        }
+        let so: Vec<u64> = (0..a.names.len() as u64).map(|i| i * 2).collect();
+        let dstr: Vec<u8> = (0..a.names.len()).flat_map(|_| [b'z', 0]).collect();
+        let hashes: Vec<u64> = a.names.iter().map(|n| n.hash as u64).collect();
+        let (mut bs, _) = ser_names(&a, big, 0, &so, &hashes);
+        if mode >= 1 {
+            // overwrite a bucket entry with an arbitrary start index
+            let hl = if a.f64_ { 12 } else { 4 };
+            let augpad = (a.aug.len() + 3) / 4 * 4;
+            let wsz = if a.f64_ { 8 } else { 4 };
+            let bstart = hl + 32 + augpad + a.cus.len() * wsz + a.ltus.len() * wsz + a.ftus.len() * 8;
+            let b = rng.below(a.bucket_count as u64) as usize;
+            let v = *rng.pick(&[0u32, 1, a.names.len() as u32, a.names.len() as u32 + 1, a.names.len() as u32 + 2, u32::MAX]);
+            let vb = if big { v.to_be_bytes() } else { v.to_le_bytes() };
+            bs[bstart + 4 * b..bstart + 4 * b + 4].copy_from_slice(&vb);
+        }
+        let hs = join(",", &hashes.iter().map(|x| x.to_string()).collect::<Vec<_>>());
+        emit(format!("nm {} {} {} {} -", es(big), hex(&bs), hex(&dstr), hs));
+    }
+    // the DJB hash on ASCII strings
+    let n = ctx.n(200, 5000);
+    emit("djb-ascii -".into());
+    for _ in 0..n {
+        let len = rng.below(24) as usize;
+        let s: Vec<u8> = (0..len).map(|_| if rng.chance(1, 3) { b'A' + rng.below(26) as u8 } else { rng.below(128) as u8 }).collect();
+        emit(format!("djb-ascii {}", hex(&s)));
+    }
+}
+
 pub fn gen(ctx: &Ctx, emit: &mut dyn FnMut(String)) {
     gen_index(ctx, emit);
     gen_aranges(ctx, emit);
     gen_pub(ctx, emit);
+    gen_names(ctx, emit);
 }
 
 #[allow(dead_code)]
